@@ -1002,6 +1002,151 @@ def c10(res, tier, seed, lib):
             res.check(rc == 0 and shown == has, "alpha-printed-iff-not-1", "cli:format", inp, "printed %r" % ln)
 
 
+# ------------------------------------------------------------------------------------------ C01 / C05 / C07 (CLI glue)
+
+def c01(res, tier, seed, lib):
+    """The CLI hands every colour string to the parser unchanged: accepted strings print the colour
+    the library reads, rejected ones give exit 1 and `Could not parse color '<text>'`."""
+    n = 260 if tier != "thorough" else 4000
+    ans = harness_query(["c01gen %d %d" % (n, seed)])[0]
+    strs = [unhex(x) for x in ans.split(" ")[1].split(",")] if ans.startswith("ok ") else []
+    res.check(len(strs) > 50, "generator-produced-strings", "pv-harness c01gen", "c01gen", ans[:80])
+    texts = []
+    for b in strs:
+        try:
+            t = b.decode("utf-8")
+        except UnicodeDecodeError:
+            continue
+        if "\n" in t or "\r" in t or "\x00" in t or t.startswith("-") or t.strip() in ("pick", "-") or t == "":
+            continue
+        texts.append(t)
+    inf = infos(texts)
+    n_acc = n_rej = 0
+    for t, i in zip(texts, inf):
+        rc, out, err = run_cli(["format", "hex", t])
+        inp = "format hex %r" % t
+        res.case(inp)
+        generic_oracle(res, ["format", "hex", t], rc, out, err)
+        if i.ok:
+            n_acc += 1
+            rgb = rgb_of(i)
+            a = wire_floats(i)[3]
+            want = "#%02x%02x%02x" % rgb + ("" if a == 1.0 else "%02x" % int(a * 255 + 0.5))
+            res.check(rc == 0 and out.decode().strip() == want, "cli-accepts-what-the-grammar-accepts", "cli:color argument", inp,
+                      "rc=%s printed %r, the library reads %s" % (rc, out[:40], want))
+        else:
+            n_rej += 1
+            cls, msg = classify_stderr(err)
+            res.check(rc == 1 and cls == "color-parse" and out == b"", "cli-reports-could-not-parse-color", "cli:color argument", inp,
+                      "rc=%s class=%s out=%r" % (rc, cls, out[:40]))
+            res.check(msg is not None and ("'%s'" % t) in msg, "error-names-the-text", "cli:color argument", inp, repr(msg))
+    res.tag("cli:accepted", n_acc); res.tag("cli:rejected", n_rej)
+
+
+def c05(res, tier, seed, lib):
+    """Extreme numeric arguments on the command line: exit 0/1/2, never a panic, and whatever is
+    printed is a colour the parser reads back (hence valid)."""
+    rnd = random.Random(seed)
+    amounts = ["1e308", "1e400", "nan", "NaN", "inf", "infinity", "1e-320", "99999999999999999999", "0", "1", "0.5", "360", "720", "1e15"]
+    colors = ["red", "black", "white", "gray", "rgba(10,20,30,0.5)", "hsl(359.9999,100%,50%)", "lab(100,127,-128)", "lch(50,200,720)"]
+    cases = []
+    for sub in ["lighten", "darken", "saturate", "desaturate", "rotate"]:
+        for a in amounts:
+            cases.append([sub, a])
+    for p in SET_PROPS:
+        for a in (amounts if tier == "thorough" else rnd.sample(amounts, 4)):
+            cases.append(["set", p, a])
+    for a in amounts:
+        for sp in (["rgb", "hsl", "lab", "lch", "oklab"] if tier == "thorough" else [rnd.choice(["rgb", "hsl", "lab", "lch", "oklab"])]):
+            cases.append(["mix", "-f", a, "-s", sp, "blue"])
+    for c in cases:
+        argv = c + colors
+        rc, out, err = run_cli(argv)
+        inp = " ".join(c)
+        res.case(inp)
+        generic_oracle(res, argv, rc, out, err)
+        lines = out.decode("utf-8", "replace").split("\n")[:-1]
+        if rc == 0:
+            res.check(len(lines) == len(colors), "one-line-per-colour", "cli:" + c[0], inp, "%d lines" % len(lines))
+        for ln, g in zip(lines, infos(lines)):
+            res.check(g.ok, "printed-colour-is-valid", "cli:" + c[0], inp, "printed %r does not parse" % ln)
+            if g.ok:
+                h = wire_floats(g)
+                res.check(0 <= h[0] <= 360 and all(0 <= x <= 1 for x in h[1:]), "printed-colour-is-valid", "cli:" + c[0], inp, "printed %r = %r" % (ln, h))
+
+
+def c07(res, tier, seed, lib):
+    """`mix --fraction F base colour` weights the base by F: F=1 prints the base, F=0 the colour
+    (8-bit operands: exactly), and every line equals the model's mix at fraction 1-F."""
+    rnd = random.Random(seed)
+    n = 40 if tier != "thorough" else 600
+    ops, meta = [], []
+    for k in range(n):
+        base = "#%02x%02x%02x" % (rnd.randrange(256), rnd.randrange(256), rnd.randrange(256))
+        cols = ["#%02x%02x%02x" % (rnd.randrange(256), rnd.randrange(256), rnd.randrange(256)) for _ in range(rnd.randrange(1, 4))]
+        if k % 5 == 0:
+            cols[0] = "rgba(%d,%d,%d,0.%d)" % (rnd.randrange(256), rnd.randrange(256), rnd.randrange(256), rnd.randrange(1, 10))
+        sp = rnd.choice(["rgb", "hsl", "lab", "lch", "oklab", "RGB", "Lab", "OkLab"])
+        f = rnd.choice(["0", "1", "0.5", "0.25", "%.3f" % rnd.random(), "2", "1e-9"])
+        argv = ["mix", "-f", f, "-s", sp, base] + cols
+        rc, out, err = run_cli(argv)
+        inp = " ".join(argv)
+        res.case(inp)
+        lines = out.decode().split("\n")[:-1]
+        res.check(rc == 0 and len(lines) == len(cols), "exit-0", "cli:mix", inp, "rc=%s %d lines %r" % (rc, len(lines), err[-100:]))
+        binf, cinf = infos([base])[0], infos(cols)
+        eight = all(not c.startswith("rgba") for c in cols)
+        if rc == 0 and float(f) >= 1:
+            res.check(all(l == binf.hsl for l in lines) if eight else True, "fraction-1-gives-base", "cli:mix", inp, "%s vs base %s" % (lines, binf.hsl))
+        if rc == 0 and float(f) == 0:
+            res.check(lines == [c.hsl for c in cinf], "fraction-0-gives-colour", "cli:mix", inp, "%s vs %s" % (lines, [c.hsl for c in cinf]))
+        op = "cli mix 3 %s %s %s %d %s 0" % (hexs(base), hexs(f), hexs(sp), len(cols), " ".join(hexs(c) for c in cols))
+        ops.append(op); meta.append((inp, "ok %d %s - -" % (rc, hexs(out))))
+    for (inp, impl), mo in zip(meta, model_batch(ops)):
+        res.model_op()
+        if mo != impl:
+            res.disagree(inp, impl[:300], mo[:300])
+    # the default fraction is 0.5 and the default space Lab
+    rc1, out1, _ = run_cli(["mix", "red", "blue"])
+    rc2, out2, _ = run_cli(["mix", "-f", "0.5", "-s", "Lab", "red", "blue"])
+    res.case("mix defaults")
+    res.check(rc1 == 0 and out1 == out2, "mix-defaults", "cli:mix", "mix red blue", "%r vs %r" % (out1, out2))
+
+
+# ------------------------------------------------------------------------------------------ C04 (CLI glue)
+
+FORMAT_TYPES = ["rgb", "rgb-float", "hex", "hsl", "hsl-hue", "hsl-saturation", "hsl-lightness", "hsv", "hsv-hue", "hsv-saturation",
+                "hsv-value", "lch", "lch-lightness", "lch-chroma", "lch-hue", "lab", "lab-a", "lab-b", "oklab", "oklab-l", "oklab-a",
+                "oklab-b", "luminance", "brightness", "ansi-8bit", "ansi-24bit", "cmyk", "name"]
+
+
+def c04(res, tier, seed, lib):
+    """`pastel format <type>` prints, for each type, the coordinate of that name as the reference
+    evaluation (the Lean model) computes it, in the documented precision."""
+    rnd = random.Random(seed)
+    cols = ["#%02x%02x%02x" % (rnd.randrange(256), rnd.randrange(256), rnd.randrange(256)) for _ in range(6 if tier != "thorough" else 80)]
+    cols += ["black", "white", "#0b0b0b", "rgba(200,100,50,0.5)", "hsl(300,40%,60%)", "rebeccapurple"]
+    ops, meta = [], []
+    for t in FORMAT_TYPES:
+        argv = ["format", t] + cols
+        rc, out, err = run_cli(argv)
+        inp = " ".join(argv)
+        res.case(inp)
+        res.check(rc == 0 and out.count(b"\n") == len(cols), "exit-0", "cli:format", inp, "rc=%s %r" % (rc, err[-100:]))
+        ops.append("cli format 1 %s %d %s 0" % (hexs(t), len(cols), " ".join(hexs(c) for c in cols)))
+        meta.append((inp, "ok %d %s - -" % (rc, hexs(out))))
+    for (inp, impl), mo in zip(meta, model_batch(ops)):
+        res.model_op()
+        if mo != impl:
+            def show(x):
+                t = x.split(" ")
+                try:
+                    return "rc=%s stdout=%r" % (t[1], unhex(t[2])[:400])
+                except Exception:
+                    return x[:300]
+            res.disagree(inp, show(impl), show(mo))
+
+
 # ------------------------------------------------------------------------------------------ C20
 
 def c20(res, tier, seed, lib):
@@ -1231,7 +1376,7 @@ def c14(res, tier, seed, lib):
         res.check(rc == want and out == b"", "distinct-validation", "cli:distinct", repr(argv), "rc=%s out=%r" % (rc, out[:60]))
 
 
-RUNNERS = {"C20": c20, "C09": c09, "C10": c10, "C02": c02, "C06": c06, "C08": c08, "C13": c13, "C14": c14, "C16": c16, "C17": c17, "C18": c18, "C19": c19}
+RUNNERS = {"C20": c20, "C04": c04, "C01": c01, "C05": c05, "C07": c07, "C09": c09, "C10": c10, "C02": c02, "C06": c06, "C08": c08, "C13": c13, "C14": c14, "C16": c16, "C17": c17, "C18": c18, "C19": c19}
 
 
 def run(prop, tier, seed, lib):
